@@ -305,6 +305,7 @@ func runPhase(c *mon.Ctx, name string) {
 }
 
 func run(c *mon.Ctx) {
+	c.Level = "fault_enumeration"
 	c.Rule = "header: every bit pattern of the stated weights over the 48 (uncompressed) / 64 (LZ4) header+CRC-24 bits, " +
 		"enumerated combinatorially (each pattern distinct by construction; counts cross-checked against binomials), applied to " +
 		"base segments produced by EncodeSegment; payload: single flips, pairs and LSB-first bursts (first/last bit set) over " +
